@@ -268,3 +268,7 @@ impl Scheduler {
         self.event_loop.get_selector()
     }
 }
+
+#[cfg(kani)]
+#[path = "/verif/harness/may/scheduler.rs"]
+mod verif_kani;
